@@ -114,6 +114,7 @@ class QConv2DBatchnorm(QConv2D):
         kernel_size=kernel_size,
         strides=strides,
         padding=padding,
+        data_format=data_format,
         dilation_rate=dilation_rate,
         activation=activation,
         use_bias=use_bias,
